@@ -14,6 +14,26 @@ CLAIMED = {
          'by the harness for the small-capacity runs; bounds are small (<= 7 records exhaustive, <= 3100 sampled).',
     technique='TLA+ spec + TLC exhaustive check, behaviour replay into DDEHistory, TLC trace validation of recorded logs',
     ref='6/C19'),
+
+ 'C03': dict(
+    text='spec/Solver.tla models run(): the _solve_euler/_solve_heun loop as a pc-level state machine (store, RHS call(s) with their '
+         'side effects, advance), the time axis, storage cadence and cutoff; TLC checks that P refines the textbook Euler/Heun '
+         'iterates (layer M) for every (model, T, dt, dts, cutoff, solver, vectorize) case within the bounds, then every case is '
+         'run through CircuitTemplate.run in several exact time-scale / precision / cutoff-placement variants and index and rows '
+         'are compared with ==. Adaptive solver: polynomial chain models with closed-form solution (tolerance).',
+    note='Exact integer/dyadic regime only; bounds: <= 12 steps, store <= 3, 5 linear models; T a multiple of dts (else known '
+         'finding D21, pinned); accuracy clause for adaptive solvers only on polynomial models.',
+    technique='TLA+ solver-loop spec, TLC exhaustive over configuration lattice, exact replay through run()',
+    ref='6/C03'),
+ 'C09': dict(
+    text='spec/Solver.tla delay pass + ring buffers (which source variables get a buffer, which slot an edge reads, roll per RHS '
+         'call) checked by TLC against the delayed recurrence for every ordered edge list (<= 2/3 edges, lags 0,2,3,4, two '
+         'sources, two targets, vectorize on/off, merged or separate node kinds, node-and-edge and Population/Connectivity form); '
+         'every case replayed through run(solver=euler/heun) with exact comparison, delay jitter +-dt/4 and time rescaling.',
+    note='Known findings D06, D07 are matched against the exact prediction of the deviating model; D36 pinned and excluded by '
+         'constraint; population form restricted to one lag per source variable (D37/D38) and >= 2 target units (D27).',
+    technique='TLA+ ring-buffer/delay-pass spec, TLC exhaustive over edge lists, exact replay through run()',
+    ref='6/C09'),
 }
 
 NOT_YET = 'check not built yet in this round (planned in DESIGN.md section 6); not claimed'
